@@ -153,4 +153,106 @@ theorem writeOrder_complete (children : Nat → List Nat) (f : Nat) (top : Nat)
   | refl => exact h1 top (by simp)
   | tail _ hstep ih => exact h2 _ ih _ hstep
 
+/-- remaining work: one unit per module not yet written plus one per child reference of it -/
+def orderCost (children : Nat → List Nat) (univ w : List Nat) : Nat :=
+  ((univ.filter (fun d => !(w.contains d))).map (fun d => 1 + (children d).length)).sum
+
+theorem orderCost_write (children : Nat → List Nat) (univ w : List Nat) (d : Nat)
+    (hn : univ.Nodup) (hd : d ∈ univ) (hw : d ∉ w) :
+    orderCost children univ (w ++ [d]) + (1 + (children d).length) = orderCost children univ w := by
+  unfold orderCost
+  induction univ with
+  | nil => cases hd
+  | cons x xs ih =>
+    have hx : x ∉ xs := (List.nodup_cons.mp hn).1
+    have hxs : xs.Nodup := (List.nodup_cons.mp hn).2
+    by_cases hxd : x = d
+    · subst hxd
+      -- d is the head: it leaves the filter; the tail does not contain d, so its filter is unchanged
+      have htail : xs.filter (fun e => !((w ++ [x]).contains e)) = xs.filter (fun e => !(w.contains e)) := by
+        apply List.filter_congr
+        intro e he
+        have : e ≠ x := fun h => hx (h ▸ he)
+        simp [this]
+      simp only [List.filter_cons]
+      have h1 : (!(w ++ [x]).contains x) = false := by simp
+      have h2 : (!w.contains x) = true := by simpa using hw
+      rw [h1, h2, htail]
+      simp only [Bool.false_eq_true, if_false, if_true, List.map_cons, List.sum_cons]
+      omega
+    · have hd' : d ∈ xs := by
+        rcases List.mem_cons.mp hd with h | h
+        · exact absurd h.symm hxd
+        · exact h
+      have := ih hxs hd'
+      simp only [List.filter_cons]
+      have hc : (!(w ++ [d]).contains x) = (!w.contains x) := by simp [hxd]
+      rw [hc]
+      by_cases hwx : (!w.contains x) = true
+      · simp only [hwx, if_true, List.map_cons, List.sum_cons]
+        omega
+      · simp only [hwx]
+        exact this
+
+/-- the fuel suffices: the work list empties as soon as the fuel exceeds `|queue| + remaining cost` -/
+theorem writeOrderGo_finishes (children : Nat → List Nat) (univ : List Nat) (hn : univ.Nodup)
+    (hclosed : ∀ d ∈ univ, ∀ c ∈ children d, c ∈ univ) :
+    ∀ (fuel : Nat) (q w : List Nat), (∀ x ∈ q, x ∈ univ) →
+      q.length + orderCost children univ w < fuel → (writeOrderGo children fuel q w).2 = true := by
+  intro fuel
+  induction fuel with
+  | zero => intro q w _ h; omega
+  | succ f ih =>
+    intro q w hq h
+    cases q with
+    | nil => simp [writeOrderGo]
+    | cons d q =>
+      simp only [writeOrderGo]
+      split
+      · apply ih q w (fun x hx => hq x (List.mem_cons_of_mem _ hx))
+        simp only [List.length_cons] at h
+        omega
+      · rename_i hdw
+        have hdu : d ∈ univ := hq d List.mem_cons_self
+        apply ih
+        · intro x hx
+          rcases List.mem_append.mp hx with hx | hx
+          · exact hq x (List.mem_cons_of_mem _ hx)
+          · exact hclosed d hdu x (List.mem_filter.mp hx).1
+        · have hc := orderCost_write children univ w d hn hdu hdw
+          have hf : ((children d).filter (fun c => !(c == d) && !(w.contains c))).length ≤ (children d).length :=
+            List.length_filter_le _ _
+          simp only [List.length_cons] at h
+          simp only [List.length_append]
+          omega
+
+
+theorem sum_map_succ (l : List Nat) (f : Nat → Nat) :
+    (l.map (fun d => 1 + f d)).sum = l.length + (l.map f).sum := by
+  induction l with
+  | nil => rfl
+  | cons x xs ih => simp only [List.map_cons, List.sum_cons, List.length_cons, ih]; omega
+
+/-- **fuel sufficiency.**  In a netlist of `N` definitions (child references inside `0..N-1`) the fuel
+    the driver uses, `2 + N + Σ |children d|`, always empties the work list. -/
+theorem writeOrder_finishes (children : Nat → List Nat) (N top : Nat) (htop : top < N)
+    (hclosed : ∀ d, d < N → ∀ c ∈ children d, c < N) :
+    (writeOrder children (2 + N + ((List.range N).map (fun d => (children d).length)).sum) top).2 = true := by
+  unfold writeOrder
+  apply writeOrderGo_finishes children (List.range N) List.nodup_range
+  · intro d hd c hc
+    exact List.mem_range.mpr (hclosed d (List.mem_range.mp hd) c hc)
+  · intro x hx
+    simp only [List.mem_singleton] at hx
+    rw [hx]; exact List.mem_range.mpr htop
+  · have : orderCost children (List.range N) [] = N + ((List.range N).map (fun d => (children d).length)).sum := by
+      unfold orderCost
+      have hf : (List.range N).filter (fun d => !(([] : List Nat).contains d)) = List.range N := by
+        apply List.filter_eq_self.mpr
+        intro a _; simp
+      rw [hf, sum_map_succ, List.length_range]
+    rw [this]
+    simp only [List.length_singleton]
+    omega
+
 end Spydr.Verilog
